@@ -43,7 +43,7 @@ pub struct ConnInfo {
     /// write returned Ok(0) at least once (transport contract violation)
     pub write_zero: bool,
     /// the outbound stream of this connection could be parsed to its end: no framing error, no
-    /// cancelled QoS 0 publish / cancelled disconnect() that left bytes behind, no Ok(0) write
+    /// cancelled QoS 0 publish that left bytes behind, no Ok(0) write
     pub stream_ok: bool,
 }
 
@@ -133,11 +133,7 @@ impl<'a> Trace<'a> {
         }
         for (i, op) in log.ops.iter().enumerate() {
             let _ = i;
-            if let Some(c) = op.conn {
-                if op.kind == "disconnect" && op.outcome == Outcome::Cancelled && op.out_after > op.out_before {
-                    conns[c].stream_ok = false;
-                }
-            }
+            let _ = op;
         }
         for c in conns.iter_mut() {
             if w.conns[c.idx].out.error.is_some() || c.write_zero || c.qos0_cancel_at.is_some() {
